@@ -20,6 +20,7 @@ func init() {
 		Assumptions: []string{"strconv.Atoi and strings.Split semantics"},
 		Rules: []RuleDef{
 			{ID: "C18.R11", Text: "below 5.5.0 the serial close asks exactly the assigned vBuckets: the ownership test and the close loop agree with the assigned chunk — In ⇔ Start ≤ vbID ≤ End, streams closed for Start..End inclusive (same rule as C09.R4)", Run: func(c *Ctx, id string) { c04r2(c, id); closeAllRange(c, id) }},
+			{ID: "C18.R12", Text: "a version stays the tuple its string denotes: version fields are stored only where a version is built (the parser, literals, package initialisers) — never through a pointer to a version held elsewhere; nothing in the parser narrows an integer and every numeric field of the version is as wide as int", Run: versionImmutable},
 			{ID: "C18.R1", Text: "Higher = lexicographic >, Equal = component-wise =, Lower = lexicographic < on (Major, Minor, Patch, Build) — 81 relation vectors, exhaustive for all ints", Run: c18r1},
 			{ID: "C18.R2", Text: "gates: expiry opcode ⇔ ≥ 6.5.0.0; change streams ⇔ magma ∧ ≥ 7.2.0.0; serial close ⇔ < 5.5.0.0; constants are those tuples", Run: c18r2},
 			{ID: "C18.R3", Text: "parser table: Major ← Atoi(dot[0]), Minor ← Atoi(dot[1]), Patch ← Atoi(dash(dot[2])[0]), Build ← Atoi(dash(dash(dot[2])[1])[0]); each under exactly its existence conditions; errors returned except the build's", Run: c18r3},
